@@ -2,12 +2,7 @@
 
 import ast
 
-from ..alias import Aliases
-from ..astutil import FUNC_TYPES, attr_chain, dotted, norm, params, walk_shallow
-from ..cfg import live_nodes, node_calls
-from ..flow import explore
-from ..loader import AnalysisError
-from .common import REAL, cfg_of, module_function, nodes_calling, own_method, str_const
+from .common import REAL
 
 EXPLANATION = (
     "Rules on the StreamResult decorators of testtools.testresult.real: R-NO-PARAM-MUTATION "
@@ -23,190 +18,233 @@ EXPLANATION = (
     "{fail, uxsuccess}; tagger computes (incoming | add) - discard, None when empty)."
 )
 
-STREAM_METHODS = ("status", "startTestRun", "stopTestRun")
-SCHEMA_FALLBACK = ["test_id", "test_status", "test_tags", "runnable", "file_name", "file_bytes", "eof", "mime_type", "route_code", "timestamp"]
+from . import streamobjects as so   # noqa: E402
+from ..absint import FALSE, NONE, TRUE, State   # noqa: E402
+
+TARGETS = ("w0", "w1", "queue")
+NOW = ("sym", "the-current-utc-time")
+FIELDS = [("test_id", ("const", "pkg.T")), ("test_status", ("const", "success")), ("test_tags", None), ("runnable", FALSE), ("file_name", ("const", "f")), ("file_bytes", ("const", b"b")),
+          ("eof", TRUE), ("mime_type", ("const", "text/x")), ("route_code", ("const", "r")), ("timestamp", ("sym", "t-given"))]
 
 
-def stream_classes(ctx):
-    base = ctx.classes.get(REAL, "StreamResult")
-    out = []
-    for c in ctx.classes.all:
-        if c.external or c.module.name != REAL:
+def tagset(*names):
+    return ("set", ("copy", ("tuple",) + tuple(("const", n) for n in names)))
+
+
+def _event(**over):
+    return [(k, over.get(k, v)) for k, v in FIELDS if over.get(k, v) is not None]
+
+
+class DecoratorDomain(so.StreamDomain):
+    def __init__(self, classes, raising=()):
+        raising = set(raising)
+
+        def oracle(n, pos, kw):
+            if n in raising:
+                return [("exc", ("exc", "TargetError"))]
+            return None
+        super().__init__(classes, accepting=TARGETS, oracle=oracle, results={"datetime.datetime.now": [NOW], "datetime.now": [NOW]},
+                         track=lambda d: d in ("datetime.datetime.now", "datetime.now"), log_cap=60)
+
+    def apply(self, interp, fn, pos, kw, st, fr):
+        if fn == ("userfn", "on_error"):
+            return [so.val(NONE, st.set("ev.on_error", st.get("ev.on_error", 0) + 1))]
+        return super().apply(interp, fn, pos, kw, st, fr)
+
+
+def _calls(r, names=TARGETS):
+    return [(n.split(".")[0], n.split(".")[1], pos, dict(kw)) for n, pos, kw, tag in r.state.get("ev.calls", ()) if n.split(".")[0] in names]
+
+
+def _tags(dom, v):
+    if v in (None, NONE):
+        return None
+    els = dom._set_elements(v) if isinstance(v, tuple) and v[:1] == ("set",) else None
+    return sorted(x[1] for x in els) if els is not None and all(isinstance(x, tuple) and x[:1] == ("const",) for x in els) else "?"
+
+
+def _new(ctx, name, ctor_pos, ctor_kw=(), raising=(), state=None):
+    cls = ctx.classes.get(REAL, name)
+    d = so.Driver(ctx, cls, DecoratorDomain(ctx.classes, raising))
+    return cls, d, d.construct(ctor_pos, ctor_kw, state=state)
+
+
+def check_copy(ctx):
+    W = ("tuple", ("wobj", "w0"), ("wobj", "w1"))
+    for name, ctor in (("CopyStreamResult", [W]), ("StreamTagger", [W]), ("TimestampingStreamResult", None)):
+        if ctor is None:
             continue
-        if base in ctx.classes.mro(c):
-            out.append(c)
-    return out
+        cls, d, runs = _new(ctx, name, ctor)
+        runs = d.call(runs, "startTestRun")
+        runs = d.call(runs, "status", kw=_event())
+        runs = d.call(runs, "status", pos=[("const", "pkg.U"), ("const", "fail")])   # positional arguments travel too
+        runs = d.call(runs, "stopTestRun")
+        d.done()
+        problems, fields = set(), set()
+        for r in runs:
+            if r.kind == "exc":
+                problems.add(f"raises {r.value!r}")
+                continue
+            got = [(t, m) for t, m, pos, kw in _calls(r)]
+            want = [(t, m) for m in ("startTestRun", "status", "status", "stopTestRun") for t in ("w0", "w1")]
+            if got != want:
+                problems.add(f"the targets receive {got}; expected every call once per target, target after target, in the order the calls were made")
+                continue
+            st_calls = [(pos, kw) for t, m, pos, kw in _calls(r) if m == "status"]
+            for pos, kw in st_calls[:2]:
+                for k, v in _event():
+                    if kw.get(k, "absent") != v:
+                        fields.add(f"the field {k} arrives as {kw.get(k, 'absent')!r} instead of {v!r}")
+            for pos, kw in st_calls[2:]:
+                given = list(pos) + [kw.get("test_id"), kw.get("test_status")]
+                if ("const", "pkg.U") not in given or ("const", "fail") not in given:
+                    fields.add(f"positional test_id / test_status do not reach the targets ({pos!r}, {kw!r})")
+        ctx.check("R-FORWARD-ALL-TARGETS", f"{name}: startTestRun / status / stopTestRun reach every target exactly once, in list order", cls.node, bool(runs) and not problems,
+                  "; ".join(sorted(problems)) or "no path returns", examined=len(runs), construct=f"{REAL}:{name}::all-targets")
+        ctx.check("R-FIELD-PASSTHROUGH", f"{name}: every field reaches every target unchanged", cls.node, bool(runs) and not fields, "; ".join(sorted(fields)), examined=len(runs),
+                  construct=f"{REAL}:{name}::fields")
+    # a target that raises ends the delivery there: targets before it got the event (strictness: the forwarding is not a lazy map nobody consumes)
+    cls, d, runs = _new(ctx, "CopyStreamResult", [W], raising=("w1.status",))
+    runs = d.call(d.call(runs, "startTestRun"), "status", kw=_event())
+    d.done()
+    ok = bool(runs) and all(r.kind == "exc" and [(t, m) for t, m, pos, kw in _calls(r) if m == "status"] == [("w0", "status"), ("w1", "status")] for r in runs)
+    ctx.check("R-STRICT", "the forwarding happens during the call (an error of a target surfaces from status(), after the earlier targets were served)", cls.node, ok,
+              "status() returns without having delivered the event (a lazy iterator nobody consumes?) or swallows the target's error", examined=len(runs), construct=f"{REAL}:CopyStreamResult.status::strict")
 
 
-def count_calls_on_paths(ctx, func, pred):
-    """Set of call counts {0,1,2} observed at normal exits (typestate counter)."""
-    cfg = cfg_of(ctx, func)
-    live = live_nodes(cfg)
-    hit = set(nodes_calling(cfg, pred, live))
-
-    def transfer(node, st, kind, target, exp, pair):
-        if node.id in hit and kind != "exc":
-            n = sum(1 for c in node_calls(node) if pred(c))
-            return min(st + n, 2)
-        return st
-
-    exp = explore(cfg, 0, transfer)
-    ctx.stats["states"] += exp.size
-    return exp, cfg
-
-
-ARGS_ = ("tuple", ("arg", "a0"))
-IN_TAGS, TS_ = ("arg", "incoming-tags"), ("arg", "supplied-timestamp")
-
-
-def _kw(**over):
-    base = {"test_id": ("arg", "tid"), "test_status": ("arg", "st"), "test_tags": IN_TAGS, "runnable": ("arg", "runnable"), "file_name": ("arg", "fn"),
-            "file_bytes": ("arg", "fb"), "eof": ("arg", "eof"), "mime_type": ("arg", "mime"), "route_code": ("arg", "rc"), "timestamp": TS_}
-    base.update(over)
-    return ("kwdict", tuple((k, v) for k, v in base.items() if v is not None))
-
-
-def check_copy_semantics(ctx):
-    """CopyStreamResult and its two field-owning subclasses, on abstract runs with two symbolic targets: every
-    target receives each call exactly once, in order, with the event unchanged except for the field the class owns."""
-    from .. import effects
-    classes = ctx.classes
-    for cname in ("CopyStreamResult", "StreamTagger", "TimestampingStreamResult"):
-        c = classes.get(REAL, cname)
-        for m in STREAM_METHODS:
-            owner, f = classes.resolve_method(c, m)
-            if not isinstance(f, FUNC_TYPES) or owner is None or owner.external:
-                raise AnalysisError(f"anchor vanished: {cname}.{m}")
-            scenarios = [("event", _kw())]
-            if m == "status" and cname == "TimestampingStreamResult":
-                scenarios = [("timestamp supplied", _kw()), ("timestamp=None", _kw(timestamp="None")), ("no timestamp", _kw(timestamp=None))]
-            if m == "status" and cname == "StreamTagger":
-                scenarios = [("tags supplied", _kw()), ("test_tags=None", _kw(test_tags="None")), ("no test_tags", _kw(test_tags=None))]
-            for sname, kw in scenarios:
-                dom = effects.EffectDomain(classes, attrs={"self.targets": ("tuple", ("wobj", "w0"), ("wobj", "w1")), "self.add": ("arg", "add"), "self.discard": ("arg", "discard"),
-                                                           "utc": ("utc",), "datetime.timezone.utc": ("utc",), "timezone.utc": ("utc",), "datetime.UTC": ("utc",)},
-                                           track=lambda d: d in ("datetime.datetime.now", "datetime.now"), results={"datetime.datetime.now": [("now",)], "datetime.now": [("now",)]})
-                argv = {}
-                if m == "status":
-                    argv = {(f.args.vararg.arg if f.args.vararg else "args"): ARGS_, (f.args.kwarg.arg if f.args.kwarg else "kwargs"): kw}
-                res = effects.run(ctx, dom, f, c, argv, depth=7)
-                problems = set()
-                seen_incoming = set()
-                sent_values = set()
-                if not any(r.kind == "val" for r in res):
-                    problems.add("no returning path")
-                for r in res:
-                    if r.kind != "val":
-                        continue
-                    sent = [e for e in effects.calls(r) if e[0] in (f"w0.{m}", f"w1.{m}")]
-                    if [e[0] for e in sent] != [f"w0.{m}", f"w1.{m}"]:
-                        problems.add(f"targets called: {[e[0] for e in sent]} (each target must get {m} exactly once, in order; a lazy map that nobody consumes calls no one)")
-                        continue
-                    if m != "status":
-                        continue
-                    for e in sent:
-                        if e[1] != ARGS_[1:]:
-                            problems.add("positional event arguments are not passed on unchanged")
-                        got = dict(e[2])
-                        want = dict(kw[1])
-                        owned = {"StreamTagger": "test_tags", "TimestampingStreamResult": "timestamp"}.get(cname)
-                        for k in set(got) | set(want):
-                            if k == owned:
-                                continue
-                            if got.get(k) != want.get(k):
-                                problems.add(f"event field {k} is {'dropped' if k not in got else 'changed or added'}")
-                        if cname == "TimestampingStreamResult":
-                            supplied = want.get("timestamp") not in (None, "None")
-                            nows = [x for x in effects.calls(r) if x[0] in ("datetime.datetime.now", "datetime.now")]
-                            if supplied and got.get("timestamp") != TS_:
-                                problems.add("a supplied timestamp is not passed on untouched")
-                            if not supplied and (got.get("timestamp") != ("now",) or len(nows) != 1 or (("utc",) not in nows[0][1] and ("tz", ("utc",)) not in nows[0][2])):
-                                problems.add("a missing timestamp is not filled with datetime.now(<UTC>)")
-                        if cname == "StreamTagger":
-                            v = got.get("test_tags")
-                            src = want.get("test_tags")
-                            ok_empty = v == "None"
-                            ok_set = False
-                            if isinstance(v, tuple) and v[:1] == ("set",):
-                                e_ = v[1]
-                                ok_set = (e_[0] == "minus" and e_[2] == ("arg", "discard") and isinstance(e_[1], tuple) and e_[1][0] == "union" and e_[1][2] == ("arg", "add")
-                                          and isinstance(e_[1][1], tuple) and e_[1][1][0] in ("copy", "empty"))
-                                if ok_set and IN_TAGS in _flatten(e_[1][1]):
-                                    seen_incoming.add(True)
-                            sent_values.add("None" if ok_empty else "set")
-                            if not (ok_empty or ok_set):
-                                problems.add(f"outgoing test_tags is {v!r}: not (a copy of the incoming tags | add) - discard, or None when nothing remains")
-                if cname == "StreamTagger" and m == "status" and sname == "tags supplied" and not seen_incoming and not problems:
-                    problems.add("the incoming tags never reach the outgoing set")
-                if cname == "StreamTagger" and m == "status" and not problems and sent_values != {"None", "set"}:
-                    problems.add("an empty resulting tag set is not sent as None (consumers treat None as 'no tag information')" if "None" not in sent_values else "the computed tags are never sent")
-                name = f"{cname}.{m}" + (f" [{sname}]" if m == "status" and cname != "CopyStreamResult" else "")
-                rule = "R-OWNED-FIELD-GUARD" if (m == "status" and cname != "CopyStreamResult") else "R-FORWARD-ALL-TARGETS"
-                ctx.check(rule, f"{name}: every target gets the call once, in order" + (", event intact but for the owned field" if m == "status" else ""), f, not problems,
-                          "; ".join(sorted(problems)), examined=len(res), construct=f"{REAL}:{cname}.{m}::semantics {sname}")
+def check_tagger(ctx):
+    W = ("tuple", ("wobj", "w0"), ("wobj", "w1"))
+    cases = [
+        ("tags added and discarded", tagset("keep", "gone"), ["keep", "new"]),
+        ("no incoming tags: the added ones alone", None, ["new"]),
+        ("everything discarded: no tags at all (None, not an empty set)", tagset("gone"), "none-if-nothing-added"),
+        ("a tag both added and discarded is discarded", tagset("keep"), "both"),
+    ]
+    cls = ctx.classes.get(REAL, "StreamTagger")
+    guard, mutate, fields = set(), set(), set()
+    n = 0
+    for what, incoming, want in cases:
+        add = tagset("new") if want not in ("none-if-nothing-added", "both") else tagset() if want != "both" else tagset("new", "gone")
+        if want == "both":
+            want = ["keep", "new"]
+        st0 = State([("heap.caller-tags", incoming)]) if incoming is not None else State()
+        _, d, runs = _new(ctx, "StreamTagger", [W], [("add", add), ("discard", tagset("gone"))], state=st0)
+        runs = d.call(runs, "startTestRun")
+        runs = d.call(runs, "status", kw=_event(test_tags=("h", "caller-tags") if incoming is not None else None))
+        d.done()
+        for r in runs:
+            n += 1
+            if r.kind == "exc":
+                guard.add(f"[{what}] raises {r.value!r}")
+                continue
+            sent = [kw for t, m, pos, kw in _calls(r) if m == "status"]
+            if len(sent) != 2:
+                guard.add(f"[{what}] {len(sent)} status calls reach the two targets")
+                continue
+            for kw in sent:
+                got = _tags(d.dom, kw.get("test_tags"))
+                exp = None if want == "none-if-nothing-added" else want
+                if got != exp:
+                    guard.add(f"[{what}] a target receives test_tags={got}; expected {exp} ((incoming | add) - discard, None when that is empty)")
+                for k, v in _event():
+                    if k != "test_tags" and kw.get(k, "absent") != v:
+                        fields.add(f"the field {k} arrives as {kw.get(k, 'absent')!r} instead of {v!r}")
+            if incoming is not None and r.state.get("heap.caller-tags", incoming) != incoming:
+                mutate.add(f"[{what}] the caller's own tag set is changed in place (it becomes {r.state.get('heap.caller-tags')!r})")
+            tag_objs = [kw.get("test_tags") for kw in sent]
+    ctx.check("R-OWNED-FIELD-GUARD", "StreamTagger: targets see (incoming | add) - discard, None when empty", cls.node, n > 0 and not guard, "; ".join(sorted(guard)) or "no path returns", examined=n,
+              construct=f"{REAL}:StreamTagger.status::tags")
+    ctx.check("R-NO-PARAM-MUTATION", "StreamTagger never changes the tag set the caller passed", cls.node, n > 0 and not mutate, "; ".join(sorted(mutate)), examined=n,
+              construct=f"{REAL}:StreamTagger.status::no-mutation")
+    ctx.check("R-FIELD-PASSTHROUGH", "StreamTagger: every other field unchanged", cls.node, n > 0 and not fields, "; ".join(sorted(fields)), examined=n, construct=f"{REAL}:StreamTagger.status::fields")
 
 
-def _flatten(v):
-    out = [v]
-    if isinstance(v, tuple):
-        for x in v:
-            out.extend(_flatten(x))
-    return out
+def check_timestamper(ctx):
+    cls = ctx.classes.get(REAL, "TimestampingStreamResult")
+    guard, fields = set(), set()
+    n = 0
+    for what, given, want in (("a supplied timestamp is kept", ("sym", "t-given"), ("sym", "t-given")), ("a missing timestamp becomes the current UTC time", None, NOW),
+                              ("timestamp=None becomes the current UTC time", NONE, NOW)):
+        _, d, runs = _new(ctx, "TimestampingStreamResult", [("wobj", "w0")])
+        ev = [(k, v) for k, v in _event() if k != "timestamp"] + ([("timestamp", given)] if given is not None else [])
+        runs = d.call(d.call(runs, "startTestRun"), "status", kw=ev)
+        d.done()
+        for r in runs:
+            n += 1
+            if r.kind == "exc":
+                guard.add(f"[{what}] raises {r.value!r}")
+                continue
+            sent = [kw for t, m, pos, kw in _calls(r) if m == "status"]
+            if len(sent) != 1:
+                guard.add(f"[{what}] the target receives {len(sent)} status calls; expected one")
+                continue
+            if sent[0].get("timestamp", "absent") != want:
+                guard.add(f"[{what}] the target receives timestamp={sent[0].get('timestamp', 'absent')!r}; expected {want!r}")
+            clock = [e for e in r.state.get("ev.calls", ()) if e[0] in ("datetime.datetime.now", "datetime.now")]
+            if want == NOW and not (len(clock) == 1 and (clock[0][1] or clock[0][2])):
+                guard.add(f"[{what}] the current time is not taken as an aware (UTC) datetime: now() called as {[(e[1], e[2]) for e in clock]}")
+            for k, v in _event():
+                if k != "timestamp" and sent[0].get(k, "absent") != v:
+                    fields.add(f"the field {k} arrives as {sent[0].get(k, 'absent')!r} instead of {v!r}")
+    ctx.check("R-OWNED-FIELD-GUARD", "TimestampingStreamResult fills only a missing timestamp, with the current UTC time", cls.node, n > 0 and not guard, "; ".join(sorted(guard)) or "no path returns",
+              examined=n, construct=f"{REAL}:TimestampingStreamResult.status::timestamp")
+    ctx.check("R-FIELD-PASSTHROUGH", "TimestampingStreamResult: every other field unchanged, the event forwarded once", cls.node, n > 0 and not fields, "; ".join(sorted(fields)), examined=n,
+              construct=f"{REAL}:TimestampingStreamResult.status::fields")
 
 
-def _merge_consts(v):
-    if not (isinstance(v, tuple) and v[:1] == ("concat",)):
-        return v
-    parts = []
-    for p_ in v[1:]:
-        if parts and isinstance(p_, tuple) and p_[:1] == ("const",) and isinstance(parts[-1], tuple) and parts[-1][:1] == ("const",):
-            parts[-1] = ("const", parts[-1][1] + p_[1])
-        else:
-            parts.append(p_)
-    return ("concat",) + tuple(parts) if len(parts) > 1 else parts[0]
+def check_failfast(ctx):
+    cls = ctx.classes.get(REAL, "StreamFailFast")
+    problems = set()
+    n = 0
+    for status, fires in (("fail", 1), ("uxsuccess", 1), ("success", 0), ("skip", 0), ("xfail", 0), ("inprogress", 0), ("exists", 0), (None, 0)):
+        _, d, runs = _new(ctx, "StreamFailFast", [("userfn", "on_error")])
+        runs = d.call(runs, "status", kw=_event(test_status=("const", status) if status else NONE))
+        d.done()
+        for r in runs:
+            n += 1
+            if r.kind == "exc":
+                problems.add(f"status({status!r}) raises {r.value!r}")
+            elif r.state.get("ev.on_error", 0) != fires:
+                problems.add(f"for the status {status!r} the callback fires {r.state.get('ev.on_error', 0)} time(s); expected {fires}")
+    ctx.check("R-OWNED-FIELD-GUARD", "StreamFailFast fires its callback for 'fail' and 'uxsuccess' only, once per event", cls.node, n > 0 and not problems, "; ".join(sorted(problems)) or "no path returns",
+              examined=n, construct=f"{REAL}:StreamFailFast.status::statuses")
 
 
-def check_queue_semantics(ctx, schema, rule="R-FIELD-PASSTHROUGH"):
-    """StreamToQueue: one dict per call is put on the queue; status events carry every schema field unchanged except
-    route_code, which gets the queue's own code in front (alone when the event had none)."""
-    from .. import effects
-    classes = ctx.classes
-    sq_cls = classes.get(REAL, "StreamToQueue")
-    f = own_method(ctx, REAL, "StreamToQueue", "status")
-    for own in (("const", "own"),):   # a queue is always created with its routing code
-        for rc in (("arg", "rc"), "None"):
-            dom = effects.EffectDomain(classes, attrs={"self.routing_code": own, "self": ("self",)}, track=lambda d: d == "self.queue.put")
-            argv = {p_: ("arg", p_) for p_ in schema}
-            argv["route_code"] = rc
-            res = effects.run(ctx, dom, f, sq_cls, argv)
-            want_rc = rc if own == "None" else (own if rc == "None" else ("concat", ("const", "own/"), rc))
-            problems = set()
-            for r in res:
-                if r.kind != "val":
-                    problems.add(f"raises {r.value!r}")
-                    continue
-                puts = effects.calls(r, "self.queue.put")
-                if len(puts) != 1 or len(puts[0][1]) != 1 or not (isinstance(puts[0][1][0], tuple) and puts[0][1][0][:1] == ("kwdict",)):
-                    problems.add(f"{len(puts)} put() calls with a dict (exactly one expected)")
-                    continue
-                ev = dict(puts[0][1][0][1])
-                if ev.get("event") != ("const", "status") or set(ev) != set(schema) | {"event"}:
-                    problems.add(f"event dict keys {sorted(ev)}")
-                for fld in schema:
-                    got = _merge_consts(ev.get(fld))
-                    exp_ = want_rc if fld == "route_code" else ("arg", fld)
-                    if got != exp_:
-                        problems.add(f"field {fld} is sent as {got!r} (expected {exp_!r})")
-            label = f"queue code {'set' if own != 'None' else 'None'}, event route code {'given' if rc != 'None' else 'None'}"
-            ctx.check(rule, f"StreamToQueue.status [{label}]: one event with every field intact and the route code prefixed", f, bool(res) and not problems,
-                      "; ".join(sorted(problems)), construct=f"{REAL}:StreamToQueue.status::semantics {label}")
-    for m in ("startTestRun", "stopTestRun"):
-        fm = own_method(ctx, REAL, "StreamToQueue", m)
-        dom = effects.EffectDomain(classes, attrs={"self": ("self",)}, track=lambda d: d == "self.queue.put")
-        res = effects.run(ctx, dom, fm, sq_cls, {})
-        ok = bool(res) and all(r.kind == "val" and [e[1] for e in effects.calls(r, "self.queue.put")] == [(("kwdict", (("event", ("const", m)), ("result", ("self",)))),)] for r in res)
-        ctx.check(rule, f"StreamToQueue.{m} enqueues its event with result=self", fm, ok,
-                  f"StreamToQueue.{m} does not put exactly one {{event: {m!r}, result: self}}", construct=f"{REAL}:StreamToQueue.{m}::event")
+def check_queue(ctx):
+    cls = ctx.classes.get(REAL, "StreamToQueue")
+    problems, fields = set(), set()
+    n = 0
+    _, d, runs = _new(ctx, "StreamToQueue", [("wobj", "queue"), ("const", "own")])
+    runs = d.call(runs, "startTestRun")
+    runs = d.call(runs, "status", kw=_event(test_tags=("sym", "the-tags")))
+    runs = d.call(runs, "status", kw=[("test_id", ("const", "pkg.V"))])
+    runs = d.call(runs, "stopTestRun")
+    d.done()
+    for r in runs:
+        n += 1
+        if r.kind == "exc":
+            problems.add(f"raises {r.value!r}")
+            continue
+        puts = [pos for t, m, pos, kw in _calls(r) if t == "queue" and m == "put"]
+        evs = [dict(p_[0][1]) if p_ and isinstance(p_[0], tuple) and p_[0][:1] == ("kwdict",) else None for p_ in puts]
+        if len(evs) != 4 or None in evs or [e.get("event") for e in evs] != [("const", "startTestRun"), ("const", "status"), ("const", "status"), ("const", "stopTestRun")]:
+            problems.add(f"the queue receives {[e.get('event') if e else e for e in evs]}; expected one event dict per call: startTestRun, status, status, stopTestRun")
+            continue
+        if evs[0].get("result") != ("self",) or evs[3].get("result") != ("self",):
+            problems.add("the startTestRun / stopTestRun events do not carry the result that sent them")
+        for k, v in _event(test_tags=("sym", "the-tags")):
+            want = v if k != "route_code" else ("const", "own/r")
+            if evs[1].get(k, "absent") != want:
+                fields.add(f"the status event carries {k}={evs[1].get(k, 'absent')!r}; expected {want!r}")
+        defaults = {"test_status": NONE, "test_tags": NONE, "runnable": TRUE, "file_name": NONE, "file_bytes": NONE, "eof": FALSE, "mime_type": NONE, "route_code": ("const", "own"), "timestamp": NONE,
+                    "test_id": ("const", "pkg.V")}
+        for k, want in defaults.items():
+            if evs[2].get(k, "absent") != want:
+                fields.add(f"an event that leaves {k} out is queued with {k}={evs[2].get(k, 'absent')!r}; expected {want!r}")
+    ctx.check("R-FORWARD-ALL-TARGETS", "StreamToQueue puts one event dict on the queue per call, in order", cls.node, n > 0 and not problems, "; ".join(sorted(problems)) or "no path returns", examined=n,
+              construct=f"{REAL}:StreamToQueue::events")
+    ctx.check("R-FIELD-PASSTHROUGH", "StreamToQueue: every field is queued unchanged; only the route code gets the queue's own prefix", cls.node, n > 0 and not fields, "; ".join(sorted(fields)), examined=n,
+              construct=f"{REAL}:StreamToQueue.status::fields")
 
 
 def run(ctx):
@@ -215,120 +253,8 @@ def run(ctx):
     ctx.rule("R-FORWARD-ALL-TARGETS", "each event method reaches every target exactly once, in list order")
     ctx.rule("R-FIELD-PASSTHROUGH", "every status field reaches the forwarding call unchanged except the owned one")
     ctx.rule("R-OWNED-FIELD-GUARD", "the owned field is changed only as documented")
-    classes = ctx.classes
-    sr = classes.get(REAL, "StreamResult")
-    st = sr.own_method("status")
-    schema = [a.arg for a in st.args.args[1:]] if st is not None else []
-    ctx.check("R-FIELD-PASSTHROUGH", "StreamResult.status schema has the ten documented fields", st if st is not None else sr.node,
-              schema == SCHEMA_FALLBACK, f"schema is {schema}", construct=f"{REAL}:StreamResult.status::schema")
-
-    # ---------------------------------------------------------------- R-NO-PARAM-MUTATION
-    scls = stream_classes(ctx)
-    n_funcs = 0
-    for c in sorted(scls, key=lambda c: c.node.lineno):
-        for m in STREAM_METHODS:
-            f = c.methods.get(m)
-            if f is None:
-                continue
-            n_funcs += 1
-            ctx.analysed(f)
-            a = Aliases(f)
-            muts = list(a.mutations())
-            bad = []
-            for site, tgt, how in muts:
-                owned = a.caller_owned(a.of(tgt))
-                if owned:
-                    bad.append((site, tgt, how, owned))
-            if not bad:
-                ctx.check("R-NO-PARAM-MUTATION", f"{c.name}.{m}", f, True, examined=max(1, len(muts)))
-            for site, tgt, how, owned in bad:
-                ctx.check("R-NO-PARAM-MUTATION", f"{c.name}.{m}: {norm(tgt)}{how}", site, False,
-                          f"{norm(tgt)}{how} mutates an object that may be the caller's ({', '.join(sorted(o[0] + ':' + o[1] for o in owned))}): "
-                          f"the caller's argument (and what sibling targets see) changes; a frozenset raises AttributeError",
-                          examined=1)
-    ctx.floor("R-NO-PARAM-MUTATION", 20, "StreamResult event methods")
-
-    # ---------------------------------------------------------------- R-STRICT
-    check_copy_semantics(ctx)
-    # discarded lazy iterators anywhere in the stream classes (quick) / package (thorough)
-    scope = [c.node for c in scls]
-    if ctx.tier == "thorough":
-        scope = [m.tree for m in ctx.repo.modules.values()]
-        for m in ctx.repo.modules.values():
-            ctx.repo.module(m.name)
-    n_lazy = 0
-    for root in scope:
-        for n in ast.walk(root):
-            if isinstance(n, ast.Expr):
-                v = n.value
-                lazy = (isinstance(v, ast.Call) and dotted(v.func) in ("map", "filter", "zip")) or isinstance(v, ast.GeneratorExp)
-                if lazy:
-                    n_lazy += 1
-                    ctx.check("R-STRICT", f"discarded lazy iterator {norm(v)[:50]}", n, False,
-                              "a lazy iterator is created and dropped: its element calls never happen")
-    ctx.check("R-STRICT", f"no discarded lazy iterator in scope ({len(scope)} units)", sr.node, True, examined=len(scope),
-              construct=f"{REAL}::lazy-sweep")
-
-    # ---------------------------------------------------------------- R-FORWARD-ALL-TARGETS
-    copy = classes.get(REAL, "CopyStreamResult")
-    # subclasses reach the copying implementation through super() exactly once
-    for c in sorted(classes.subclasses(copy, strict=True), key=lambda c: c.node.lineno):
-        if c.module.name != REAL:
-            continue
-        for m in STREAM_METHODS:
-            f = c.methods.get(m)
-            if f is None:
-                owner, rf = classes.resolve_method(c, m)
-                ok = owner is not None and (owner is copy or copy in classes.mro(owner))
-                ctx.check("R-FORWARD-ALL-TARGETS", f"{c.name}.{m} inherited from {owner.name if owner else None}", c.node, ok,
-                          f"{c.name}.{m} resolves to {owner.name if owner else None}, which is not the copying implementation",
-                          construct=f"{REAL}:{c.name}.{m}::inherits")
-                continue
-            exp, cfg = count_calls_on_paths(ctx, f, lambda call: dotted(call.func) == f"super().{m}")
-            counts = exp.states_at(cfg.exit_return)
-            # what does super().m resolve to?
-            owner, rf = classes.resolve_method(c, m, after=c)
-            reaches = owner is not None and (owner is copy or copy in classes.mro(owner))
-            ctx.check("R-FORWARD-ALL-TARGETS", f"{c.name}.{m} calls super().{m} exactly once on every path", f,
-                      counts == {1} and reaches,
-                      f"super().{m} call count on returning paths is {sorted(counts)} (resolves to {owner.name if owner else None})",
-                      examined=exp.size, construct=f"{REAL}:{c.name}.{m}::super-once")
-    ctx.floor("R-FORWARD-ALL-TARGETS", 12)
-
-    # ---------------------------------------------------------------- R-FIELD-PASSTHROUGH
-    # StreamToQueue: explicit event dict
-    sq = own_method(ctx, REAL, "StreamToQueue", "status")
-    sq_params = [a.arg for a in sq.args.args[1:]]
-    ctx.check("R-FIELD-PASSTHROUGH", "StreamToQueue.status has the schema's parameters", sq, sq_params == schema,
-              f"StreamToQueue.status parameters {sq_params} differ from StreamResult.status {schema}", construct=f"{REAL}:StreamToQueue.status::signature")
-    sq_defaults_ok = norm(sq.args) == norm(st.args) if st is not None else False
-    ctx.check("R-FIELD-PASSTHROUGH", "StreamToQueue.status has the schema's defaults", sq, sq_defaults_ok,
-              "defaults differ from StreamResult.status (an omitted field would change value)", construct=f"{REAL}:StreamToQueue.status::defaults")
-    check_queue_semantics(ctx, schema)
-
-    # ---------------------------------------------------------------- R-OWNED-FIELD-GUARD
-    # StreamFailFast
-    ff = own_method(ctx, REAL, "StreamFailFast", "status")
-    from .. import effects
-    sff = classes.get(REAL, "StreamFailFast")
-    trig = set()
-    for status in ("exists", "inprogress", "xfail", "uxsuccess", "success", "fail", "skip", None):
-        dom_ = effects.EffectDomain(classes, track=lambda d: d == "self.on_error")
-        argv_ = {a_.arg: ("arg", a_.arg) for a_ in ff.args.args[1:]}
-        argv_["test_status"] = ("const", status) if status is not None else "None"
-        counts = {len(effects.calls(r, "self.on_error")) for r in effects.run(ctx, dom_, ff, sff, argv_) if r.kind == "val"}
-        if counts == {1}:
-            trig.add(status)
-        elif counts != {0}:
-            trig.add(f"?{status}:{sorted(counts)}")
-    ctx.check("R-OWNED-FIELD-GUARD", "fail-fast callback fires for exactly {fail, uxsuccess}", ff, trig == {"fail", "uxsuccess"},
-              f"on_error is triggered (once) by the statuses {sorted(map(str, trig))}", construct=f"{REAL}:StreamFailFast.status::trigger")
-    ff_params = [a.arg for a in ff.args.args[1:]]
-    ctx.check("R-OWNED-FIELD-GUARD", "StreamFailFast.status has the schema's parameters", ff, ff_params == schema, f"{ff_params}", construct=f"{REAL}:StreamFailFast.status::signature")
-    # StreamTagger
-    init = own_method(ctx, REAL, "StreamTagger", "__init__")
-    snap = {dotted(n.targets[0]): n.value for n in walk_shallow(init, include_self=False) if isinstance(n, ast.Assign)}
-    ok = all(isinstance(snap.get(k), ast.Call) and dotted(snap[k].func) in ("frozenset", "set") for k in ("self.add", "self.discard"))
-    ctx.check("R-OWNED-FIELD-GUARD", "tagger snapshots its add/discard sets", init, ok, "add/discard are stored without copying (later changes by the creator would leak in)",
-              construct=f"{REAL}:StreamTagger.__init__::snapshot")
-    ctx.assume("targets' own status() implementations are outside the decorators' responsibility")
+    check_copy(ctx)
+    check_tagger(ctx)
+    check_timestamper(ctx)
+    check_failfast(ctx)
+    check_queue(ctx)
